@@ -268,8 +268,16 @@ def const_str(e) -> Optional[str]:
     return None
 
 
-def sanitiser(e: ast.AST):
-    """(base expression, [(old, new), ...]) after peeling `.replace(const, const)` and `str(..)` wrappers"""
+class RegexStep(tuple):
+    """(pattern, replacement) of a `re.sub(pattern, replacement, X)` step of a sanitiser chain"""
+
+    def __repr__(self):
+        return f"re.sub({self[0]!r}, {self[1]!r})"
+
+
+def sanitiser(e: ast.AST, regex: bool = False):
+    """(base expression, [(old, new), ...]) after peeling `.replace(const, const)` and `str(..)` wrappers; with `regex` also
+    `re.sub(const, const, X)` / `re.compile(const).sub(const, X)` (no count / flags) as RegexStep entries"""
     chain = []
     while True:
         if isinstance(e, ast.Call) and isinstance(e.func, ast.Attribute) and e.func.attr == 'replace' and \
@@ -280,6 +288,12 @@ def sanitiser(e: ast.AST):
         if isinstance(e, ast.Call) and isinstance(e.func, ast.Name) and e.func.id == 'str' and len(e.args) == 1:
             e = e.args[0]
             continue
+        if regex and isinstance(e, ast.Call) and not e.keywords:
+            m = match("re.sub($p, $r, $x)", e) or match("re.compile($p).sub($r, $x)", e)
+            if m and const_str(m['p']) is not None and const_str(m['r']) is not None:
+                chain.append(RegexStep((const_str(m['p']), const_str(m['r']))))
+                e = m['x']
+                continue
         break
     chain.reverse()
     return e, chain
@@ -288,12 +302,60 @@ def sanitiser(e: ast.AST):
 def removes(chain, ch: str) -> bool:
     """some step of the chain replaces exactly `ch` by text not containing it (and no later step brings it back)"""
     ok = False
-    for a, b in chain:
+    for st in chain:
+        a, b = st
+        if isinstance(st, RegexStep):
+            if regex_removes_every(a, ch) and ch not in b:
+                ok = True
+            elif ch in b:
+                ok = False
+            continue
         if a == ch and ch not in b:
             ok = True
         elif ch in b:
             ok = False
     return ok
+
+
+def regex_removes_every(pat: str, ch: str) -> bool:
+    """the pattern is `ch` itself or one character class, optionally repeated with `+`: it matches `ch` wherever it stands
+    (a class is confirmed by trying it); patterns with context (look-around, neighbours, anchors) are not accepted here"""
+    body = pat[:-1] if pat.endswith('+') and len(pat) > 1 else pat
+    if body in (ch, '\\' + ch):
+        return True
+    # `ch` followed only by optional pieces (`:\\s*`, `: ?`): the match at every `ch` succeeds whatever follows
+    for lead in (ch, '\\' + ch):
+        if pat.startswith(lead) and re.fullmatch(r'(?:(?:\\[sSdDwW]|\[[^\]\\^]+\]|[ A-Za-z0-9_-])[*?])+', pat[len(lead):]):
+            return True
+    if re.fullmatch(r'\[(?:\\.|[^\]\\])+\]', body):
+        try:
+            return re.fullmatch(pat, ch) is not None
+        except re.error:
+            return False
+    return False
+
+
+_PROBE_NEIGHBOURS = ('', 'a', 'Z', '7', ' ', '_', '-', '.', '/', '\t', '\u00e9', '"', '0')
+
+
+def surviving_probe(chain, ch: str) -> Optional[str]:
+    """a single-line text containing `ch` that still contains it after all steps of the chain were applied to it (the steps are
+    constant str.replace / re.sub calls, so this is what the analysed code computes for that name), None when no probe survives"""
+    probes = []
+    for pre in _PROBE_NEIGHBOURS + (ch,):
+        for post in _PROBE_NEIGHBOURS + (ch,):
+            probes += [pre + ch + post, 'x' + pre + ch + post + 'y']
+    for p in sorted(set(probes), key=lambda t: (len(t), t)):
+        text = p
+        try:
+            for st in chain:
+                a, b = st
+                text = re.sub(a, b, text) if isinstance(st, RegexStep) else text.replace(a, b)
+        except (re.error, IndexError):
+            return None
+        if ch in text:
+            return p
+    return None
 
 
 # ---------------------------------------------------------------------------------------------------- deep expansion
@@ -2342,11 +2404,12 @@ def line_roles(ctx, f: Func, ps):
         if m:
             roles.append(('end', m['t'], m['f']))
             continue
-        b, chain = sanitiser(v)
+        b, chain = sanitiser(v, regex=f.module.imports.get('re') == 're')
         m = match("$t.name", b)
         if m:
             roles.append(('name', m['t'], chain))
             continue
+        b, chain = sanitiser(v)
         m = match("$t.id", b)
         if m:
             roles.append(('id', m['t'], None))
@@ -2678,6 +2741,28 @@ def missing_fields(fmt: str) -> List[str]:
 def check_date_format(o, f, node, what: str, fexpr: ast.AST) -> Optional[str]:
     fmt = const_str(fexpr)
     if fmt is None:
+        # a format chosen by a conditional expression (`A if self.scale == 'day' else B`): every alternative is a format in use
+        cases = value_cases(fexpr, []) if isinstance(fexpr, ast.IfExp) else []
+        if len(cases) > 1 and all(const_str(v) is not None for _, v in cases):
+            bad = False
+            for cs, v in cases:
+                when = ', '.join(facts.cond_texts(cs))[:80]
+                miss = missing_fields(v.value)
+                if miss:
+                    o.refute(f, node, f"{what}: strftime({v.value!r}) when {when}",
+                             f"{what} is formatted with {v.value!r} when {when} (format chosen by `{src(fexpr)[:90]}`), which drops "
+                             f"the {', '.join(miss)}: the rendered date is not the task's real date to the minute")
+                    bad = True
+                elif '%I' in v.value and '%p' not in v.value:
+                    o.refute(f, node, f"{what}: strftime({v.value!r}) when {when}", f"{what} uses the 12-hour clock without AM/PM when {when}")
+                    bad = True
+            if bad:
+                return None
+            if len({v.value for _, v in cases}) == 1:
+                return cases[0][1].value
+            o.undecided(f, node, fexpr, f"the strftime format of {what} depends on a condition (`{src(fexpr)[:80]}`): the rule compares "
+                                        f"one constant format with the format the viewer parses")
+            return None
         o.undecided(f, node, fexpr, f"the strftime format of {what} is not a string constant")
         return None
     miss = missing_fields(fmt)
@@ -2691,17 +2776,107 @@ def check_date_format(o, f, node, what: str, fexpr: ast.AST) -> Optional[str]:
     return fmt
 
 
+def _assume(conds, test: ast.AST, pol: bool):
+    """conds + (test, pol) split into atoms; None when an atom is already assumed with the other polarity (infeasible)"""
+    out = list(conds)
+    for a, p in facts.split_conj(test, pol):
+        known = [q for b, q in out if same(a, b)]
+        if (not p) in known:
+            return None
+        if not known:
+            out.append((a, p))
+    return out
+
+
+def _truth_cases(test: ast.AST, conds):
+    """[(conds, bool)]: the truth of `test` per case; a test that is itself a conditional / concatenated text (`if tag:` with
+    `tag = 'a' if c else ''`) is decided per case of that value, anything else is an atom assumed true and false"""
+    if isinstance(test, ast.UnaryOp) and isinstance(test.op, ast.Not):
+        return [(cs, not v) for cs, v in _truth_cases(test.operand, conds)]
+    if isinstance(test, ast.Constant):
+        return [(list(conds), bool(test.value))]
+    valued, cmp_ = None, None
+    if isinstance(test, (ast.IfExp, ast.JoinedStr)) or (isinstance(test, ast.BinOp) and isinstance(test.op, ast.Add)):
+        valued = test
+    elif isinstance(test, ast.Compare) and len(test.ops) == 1 and isinstance(test.ops[0], (ast.Eq, ast.NotEq)):
+        a, b = test.left, test.comparators[0]
+        if isinstance(a, ast.Constant) and isinstance(b, ast.IfExp):
+            a, b = b, a
+        if isinstance(a, ast.IfExp) and isinstance(b, ast.Constant):
+            valued, cmp_ = a, (b.value, isinstance(test.ops[0], ast.Eq))
+    elif match("len($x) > 0", test) or match("len($x) != 0", test) or match("bool($x)", test):
+        x = (match("len($x) > 0", test) or match("len($x) != 0", test) or match("bool($x)", test))['x']
+        if isinstance(x, ast.IfExp):
+            valued = x
+    if valued is not None:
+        cases = value_cases(valued, conds)
+        if all(isinstance(v, ast.Constant) for _, v in cases):
+            if cmp_ is None:
+                return [(cs, bool(v.value)) for cs, v in cases]
+            return [(cs, (v.value == cmp_[0]) == cmp_[1]) for cs, v in cases]
+    out = []
+    for pol in (True, False):
+        cs = _assume(conds, test, pol)
+        if cs is not None:
+            out.append((cs, pol))
+    return out
+
+
+def value_cases(e: ast.AST, conds) -> List[Tuple[list, ast.AST]]:
+    """[(conds, value)] of an expression built from conditional expressions, `+`, f-strings and `and` / `or` over constants:
+    every feasible combination of the tests with the value it yields (constant texts are concatenated); an expression of
+    another kind is one case with itself as the value"""
+    if isinstance(e, ast.IfExp):
+        out = []
+        for cs, tv in _truth_cases(e.test, conds):
+            out += value_cases(e.body if tv else e.orelse, cs)
+        return out
+    if isinstance(e, ast.BinOp) and isinstance(e.op, ast.Add):
+        out = []
+        for cs1, a in value_cases(e.left, conds):
+            for cs2, b in value_cases(e.right, cs1):
+                if const_str(a) is not None and const_str(b) is not None:
+                    out.append((cs2, ast.Constant(value=a.value + b.value)))
+                else:
+                    out.append((cs2, ast.BinOp(left=a, op=ast.Add(), right=b)))
+        return out
+    if isinstance(e, ast.JoinedStr) and all(isinstance(v, ast.Constant) or (
+            isinstance(v, ast.FormattedValue) and v.conversion == -1 and v.format_spec is None) for v in e.values):
+        combos = [(list(conds), '')]
+        for v in e.values:
+            nxt = []
+            for cs, text in combos:
+                if isinstance(v, ast.Constant):
+                    nxt.append((cs, text + str(v.value)))
+                    continue
+                for cs2, pv in value_cases(v.value, cs):
+                    if const_str(pv) is None:
+                        return [(list(conds), e)]
+                    nxt.append((cs2, text + pv.value))
+            combos = nxt
+        return [(cs, ast.Constant(value=text)) for cs, text in combos]
+    if isinstance(e, ast.BoolOp) and len(e.values) >= 2:
+        first = value_cases(e.values[0], conds)
+        if all(isinstance(v, ast.Constant) for _, v in first):
+            rest = e.values[1] if len(e.values) == 2 else ast.BoolOp(op=e.op, values=e.values[1:])
+            out = []
+            for cs, v in first:
+                if bool(v.value) == isinstance(e.op, ast.And):
+                    out += value_cases(rest, cs)
+                else:
+                    out.append((cs, v))
+            return out
+    return [(list(conds), e)]
+
+
 def milestone_cases(ctx, f: Func, state_role):
     """[(conds [(atom, pol)], value expr, node, func, task expr)] of the state slot of the task line"""
     _, arg, v = state_role
     out = []
 
     def flat(e, conds, node, fn, t):
-        if isinstance(e, ast.IfExp):
-            flat(e.body, conds + facts.split_conj(e.test, True), node, fn, t)
-            flat(e.orelse, conds + facts.split_conj(e.test, False), node, fn, t)
-        else:
-            out.append((conds, e, node, fn, t))
+        for cs, val in value_cases(e, conds):
+            out.append((cs, val, node, fn, t))
     if isinstance(v, ast.Call):
         h = helper_of(ctx, f, v)
         sub = _bind(h, v)
@@ -2980,6 +3155,18 @@ def gantt_sinks(ctx, o):
                 continue
             if removes(chain, ':'):
                 o.site(f, e.stmt, f"gantt line: {src(t)}.name loses ':' ({chain})")
+            elif any(isinstance(st, RegexStep) for st in chain):
+                probe = surviving_probe(chain, ':')
+                weak = next(st for st in chain if isinstance(st, RegexStep))
+                if probe is None:
+                    o.undecided(f, e.stmt, f"gantt line: name sanitiser {chain}",
+                                f"the task name reaches the Gantt line through {chain}: the rule cannot tell whether the pattern "
+                                f"{weak[0]!r} matches every `:` (accepted: `:` itself or one character class containing it)")
+                else:
+                    o.refute(f, e.stmt, f"gantt line: name sanitiser {chain}",
+                             f"the task name reaches the Gantt line through {chain}: the pattern {weak[0]!r} does not match every "
+                             f"`:` - the name {probe!r} keeps its `:`, which ends the name field, and the rest is parsed as "
+                             f"flags/id/dates (expected every ':' to be removed, e.g. .replace(':', ..))")
             else:
                 o.refute(f, e.stmt, f"gantt line: name sanitiser {chain}",
                          f"the task name reaches the Gantt line through {chain or 'no sanitiser'}: a `:` in the name ends the name "
